@@ -291,6 +291,9 @@ func init() { Registry["C13"] = runC13 }
 
 func runC13(ctx Ctx) int {
 	world.PinClock()
+	if rc, ok := concDispatch("C13", ctx); ok {
+		return rc
+	}
 	for i, a := range ctx.Args {
 		if a == "--sched-worker" && i+2 < len(ctx.Args) {
 			bound, _ := strconv.Atoi(ctx.Args[i+1])
@@ -458,9 +461,74 @@ func runC13(ctx Ctx) int {
 			}
 		}
 	}
+	{
+		cb, cs := 1, 90
+		if run.Tier == "thorough" {
+			cb, cs = 2, 1200
+		}
+		runConc(run, "C13", cb, cs)
+	}
 	run.Sample(items[0].p)
 	run.Sample(items[len(items)/2].p)
 	run.Sample(items[len(items)-1].p)
 	finishCapped(run, complete, fmt.Sprintf("%d single-request executions: k<=%d over %d dims; %d histories up to depth %d over %d requests", len(items), k, len(c13Space.Dims), len(seqs), depth, len(c13SeqAlphabet)))
 	return run.Finish()
 }
+
+
+// ---- concurrent part: two logout requests at the same time on ONE provider (two tenants, three service providers) ----------------
+// All requests carry the same request ID (IDs are chosen by the requester). Every reply is judged by the sequential oracle.
+
+var c13ConcBodies = []struct {
+	Name string
+	P    loP
+}{
+	{"A-post", loP{}},
+	{"B-post-host-b", loP{Issuer: "b", Host: "other.example:8443"}},
+	{"C-without-slo", loP{Issuer: "c"}},
+	{"A-redirect-no-relay", loP{Transport: "redirect", Relay: "none"}},
+	{"A-expired", loP{NOOA: "-1us"}},
+	{"A-issued-in-the-future-host-b", loP{Instant: "+1s", Host: "other.example:8443"}},
+	{"unregistered-issuer", loP{Issuer: "unregistered"}},
+	{"undecodable", loP{Payload: "ill-formed"}},
+}
+
+func c13ConcScenarios() []concScenario {
+	var out []concScenario
+	for i := range c13ConcBodies {
+		for j := i; j < len(c13ConcBodies); j++ {
+			ps := [2]loP{c13ConcBodies[i].P, c13ConcBodies[j].P}
+			ps[0].IssuerCfg, ps[1].IssuerCfg = "host", "host"
+			r0, r1 := "relay-t0", "relay-t1"
+			if ps[0].Relay == "" {
+				ps[0].RelayRaw = &r0
+			}
+			if ps[1].Relay == "" {
+				ps[1].RelayRaw = &r1
+			}
+			var truths [2]*loTruth
+			out = append(out, concScenario{
+				Name: c13ConcBodies[i].Name + " || " + c13ConcBodies[j].Name,
+				Build: func() (*world.World, []func() *world.Reply) {
+					w, q0, t0 := loBuild(ps[0])
+					_, q1, t1 := loBuild(ps[1])
+					truths = [2]*loTruth{t0, t1}
+					return w, []func() *world.Reply{func() *world.Reply { return w.Do(q0) }, func() *world.Reply { return w.Do(q1) }}
+				},
+				Judge: func(w *world.World, reps []*world.Reply, _ *sched.Exec) []concFinding {
+					var fs []concFinding
+					for t, rep := range reps {
+						v := c13JudgeReply(rep, truths[t])
+						for _, c := range v.Clauses {
+							fs = append(fs, concFinding{Clause: c, Thread: t, Detail: fmt.Sprint(v.Detail)})
+						}
+					}
+					return fs
+				},
+			})
+		}
+	}
+	return out
+}
+
+func init() { concRegistry["C13"] = c13ConcScenarios }
